@@ -1137,15 +1137,19 @@ pub fn dag_font(levels: usize, fanout: usize) -> TtFont {
 pub fn tt_groups(cfg_seed: u64, rng: &mut Rng, all_glyphs: bool) -> Vec<GroupSpec> {
     // level 1 on these tiny fonts = all glyph ids, full size/coord product
     let level = if all_glyphs { 1 } else { 0 };
-    let mut v = vec![
-        GroupSpec::new("unhinted", level, cfg_seed),
-        GroupSpec::new("memory", 0, cfg_seed),
-        GroupSpec::new(hint_group_name(0, 0), 0, cfg_seed),
-        GroupSpec::new(hint_group_name(0, 1 + rng.usize(drive::N_TARGETS - 1)), 0, cfg_seed),
-        GroupSpec::new(hint_group_name(3, rng.usize(drive::N_TARGETS)), 0, cfg_seed),
-    ];
+    let mut v = vec![GroupSpec::new("unhinted", level, cfg_seed), GroupSpec::new("memory", 0, cfg_seed)];
+    // each hinting configuration as 6 cases (one (size, location) pair each): creating an instance runs the
+    // generated fpgm + prep, which may legitimately use most of the interpreter's budget every time
+    let hint = |v: &mut Vec<GroupSpec>, e: usize, t: usize| {
+        for k in 0..6 {
+            v.push(GroupSpec::new(format!("{}:{}", hint_group_name(e, t), k), 0, cfg_seed));
+        }
+    };
+    hint(&mut v, 0, 0);
+    hint(&mut v, 0, 1 + rng.usize(drive::N_TARGETS - 1));
+    hint(&mut v, 3, rng.usize(drive::N_TARGETS));
     if rng.chance(1, 3) {
-        v.push(GroupSpec::new(hint_group_name(1, rng.usize(drive::N_TARGETS)), 0, cfg_seed));
+        hint(&mut v, 1, rng.usize(drive::N_TARGETS));
     }
     if rng.chance(1, 4) {
         v.push(GroupSpec::new("metrics", 0, cfg_seed));
